@@ -155,10 +155,14 @@ func (sc *Scheduler) Schedule(ctx context.Context, g *ExecutionGraph, done chan 
 					_ = sc.teardownNode(node)
 				}()
 
+				// executed tells whether the step's command (or its dry-run stand-in) was run at all: a step that the
+				// loop had already committed when a stop request arrived must not be reported as finished.
+				executed := false
 			ExecRepeat:
 				for setupSucceed && !sc.isCanceled() {
 					retrying := false
 					execErr := sc.execNode(ctx, node)
+					executed = true
 					if execErr != nil {
 						status := node.State().Status
 						switch {
@@ -219,7 +223,12 @@ func (sc *Scheduler) Schedule(ctx context.Context, g *ExecutionGraph, done chan 
 				}
 				// finish the node
 				if node.State().Status == NodeStatusRunning {
-					node.setStatus(NodeStatusSuccess)
+					if executed {
+						node.setStatus(NodeStatusSuccess)
+					} else {
+						// stopped before the command was started
+						node.setStatus(NodeStatusCancel)
+					}
 				}
 				if err := sc.teardownNode(node); err != nil {
 					sc.setLastError(err)
